@@ -28,7 +28,9 @@ RULE = (
     'of a record spanning a zone transition, staging and grid epochs '
     'compared with the UTC instants the texts were rendered from.  '
     'Malformed inputs: from each valid triple, delete each interior rain '
-    'row of the span, delete each ET row at a grid step, load twice; '
+    'row of the span, delete each ET row at a grid step, move it off the '
+    'grid, double the ET sampling rate with that row absent, load twice, load '
+    'after a load that failed part-way on the same connection; '
     'oracle: refusal (non-zero exit / exception) and, for the double load, '
     'unchanged dump.  Non-trivial = an existing local datetime within one '
     'day of a transition, or a malformed input.')
@@ -183,8 +185,15 @@ def malformed_space(tier):
                 index.append((n, a, b, 'drop-rain', k))
             for k in grid:
                 index.append((n, a, b, 'drop-et', k))
+                # ET for step k present only at an off-grid instant, and ET
+                # sampled twice as often with the on-grid row of step k absent
+                index.append((n, a, b, 'shift-et', k))
+                index.append((n, a, b, 'dense-et-without', k))
             for mode in ('db', 'cli'):
                 index.append((n, a, b, 'load-twice', mode))
+            # a load that fails part-way, then a load on the same connection
+            for bad in ('bad-level-stamp', 'bad-rain-value'):
+                index.append((n, a, b, 'load-after-failed-load', bad))
 
     def decode(i):
         n, a, b, what, k = index[i]
@@ -366,9 +375,21 @@ def run_malformed(case):
                          % [k for k in before if before[k] != after.get(k)]))
         return Result(viol=viol, nontrivial=True, outcome=str(status2),
                       obs={'refusal': repr(exc2)[:120]})
+    if what == 'load-after-failed-load':
+        return run_after_failed_load(case, rain, et, level)
     k = case['arg']
     if what == 'drop-rain':
         rain = [r for r in rain if r[0] != t0 + k * dt]
+    elif what == 'shift-et':
+        et = [(t + dt // 3, v) if t == t0 + k * dt else (t, v)
+              for t, v in et]
+    elif what == 'dense-et-without':
+        dense = []
+        for t, v in et:
+            if t != t0 + k * dt:
+                dense.append((t, v))
+            dense.append((t + dt // 2, v + 0.001))
+        et = dense
     else:
         et = [r for r in et if r[0] != t0 + k * dt]
     p, e, z = (rows_text('datetime,p', rain), rows_text('datetime,e', et),
@@ -387,11 +408,67 @@ def run_malformed(case):
             '%s at step %d of the grid was loaded without an error '
             '(n=%d, level from step %d to %d)'
             % ('a missing rainfall row (non-uniform steps)'
-               if what == 'drop-rain' else 'a missing ET value', k,
+               if what == 'drop-rain' else
+               'ET missing for a grid step (%s)' % what, k,
                case['n'], case['level_from'],
                case['n'] - 1 - case['level_before_end'])))
     return Result(viol=viol, nontrivial=True, outcome=what + str(
         type(refused).__name__), obs={'refusal': repr(refused)[:120]})
+
+
+def run_after_failed_load(case, rain, et, level):
+    """A load that fails part-way, then a complete load on the same
+    connection: either refused, or the result equals a clean load"""
+    good = (rows_text('datetime,p', rain), rows_text('datetime,e', et),
+            rows_text('datetime,z', level))
+    earlier = 10 * 86400
+    p0 = rows_text('datetime,p', [(t - earlier, v) for t, v in rain])
+    e0 = rows_text('datetime,e', [(t - earlier, v) for t, v in et])
+    z0 = rows_text('datetime,z', [(t - earlier, v) for t, v in level])
+    if case['arg'] == 'bad-level-stamp':
+        z0 += '2019-12-22 24:00:00,1.0\n'
+    else:
+        lines = p0.split('\n')
+        lines[2] = lines[2].split(',')[0] + ',not-a-number'
+        p0 = '\n'.join(lines)
+    clean = sqlite3.connect(':memory:')
+    records.load_texts(clean, *good)
+    want = records.dump(clean)
+    clean.close()
+    c = sqlite3.connect(':memory:')
+    viol = []
+    try:
+        try:
+            records.load_texts(c, p0, e0, z0)
+            first = None
+        except Exception as err:  # pylint: disable=broad-except
+            first = err
+        try:
+            records.load_texts(c, *good)
+            second = None
+        except Exception as err:  # pylint: disable=broad-except
+            second = err
+        if second is None:
+            try:
+                got = records.dump(c)
+            except sqlite3.Error as err:
+                got = repr(err)
+            if got != want:
+                viol.append((
+                    'load-into-leftovers-of-failed-load',
+                    'a load that failed (%r) left data behind; the next '
+                    'load on the same connection was accepted and the '
+                    'dataset differs from a clean load in %r'
+                    % (first, [k for k in want
+                               if not isinstance(got, dict)
+                               or got.get(k) != want[k]])))
+    finally:
+        c.close()
+    return Result(viol=viol, nontrivial=first is not None,
+                  outcome='%s/%s' % (type(first).__name__,
+                                     type(second).__name__),
+                  obs={'first': repr(first)[:100],
+                       'second': repr(second)[:100]})
 
 
 def run_case(case):
